@@ -132,6 +132,11 @@ Definition tsk_tree_get_depth (fuel : nat) (parent : list Z) (num_nodes u : Z) :
   if u =? num_nodes then Ok (-1) else
   do p <- get parent u; do _ <- walk_up fuel parent p TSK_NULL; Ok 0.
 
+(* Tree_depth (module l.12282-12299): module guard, then the library function *)
+Definition Tree_depth (fuel : nat) (parent : list Z) (num_nodes x : Z) : res Z :=
+  let node := parse_I_as_int x in
+  if Tree_check_bounds num_nodes node then Err E_VALUE else tsk_tree_get_depth fuel parent num_nodes node.
+
 (* ------------------------------------------------------------------------------------ *)
 (* 2. Loops over a caller-supplied id list that mark a per-node array:
         for j: u = ids[j]; if (u < 0 || u CMP num_nodes) error; if (mark[u] != unset) dup;
@@ -366,18 +371,22 @@ Definition table_collection_union (check_length : bool) (self_nodes other_nodes 
 Definition read_column (check : bool) (num_rows len : Z) : res Z :=
   if check then (if num_rows =? len then Ok num_rows else Err E_VALUE) else Ok len.
 
-Definition read_offset (check : bool) (num_rows len : Z) : res Z :=
-  if check then (if len =? num_rows + 1 then Ok num_rows else Err E_VALUE)
-  else (if len =? 0 then Err E_VALUE else Ok (len - 1)).
+(* table_read_offset_array (l.168-207): length (checked or adopted), then
+   `data[*num_rows] != length` -> "Bad offset column encoding" *)
+Definition read_offset (check : bool) (num_rows : Z) (off : list Z) (data_len : Z) : res Z :=
+  do n <- (if check then (if zlen off =? num_rows + 1 then Ok num_rows else Err E_VALUE)
+           else (if zlen off =? 0 then Err E_VALUE else Ok (zlen off - 1)));
+  do last <- get off n;
+  if last =? data_len then Ok n else Err E_VALUE.
 
 Fixpoint read_prefix (col : list Z) (j : Z) (n : nat) : res unit :=
   match n with O => Ok tt | S n' => do _ <- get col j; read_prefix col (j + 1) n' end.
 
 Definition site_table_set_columns (metadata_offset_checked : bool)
-           (position state_offset metadata_offset : list Z) : res Z :=
+           (position state_offset metadata_offset : list Z) (state_len metadata_len : Z) : res Z :=
   do n0 <- read_column false 0 (zlen position);
-  do n1 <- read_offset true n0 (zlen state_offset);
-  do n2 <- read_offset metadata_offset_checked n1 (zlen metadata_offset);
+  do n1 <- read_offset true n0 state_offset state_len;
+  do n2 <- read_offset metadata_offset_checked n1 metadata_offset metadata_len;
   do _ <- read_prefix position 0 (Z.to_nat n2);
   do _ <- read_prefix state_offset 0 (Z.to_nat (n2 + 1));
   do _ <- read_prefix metadata_offset 0 (Z.to_nat (n2 + 1));
@@ -525,6 +534,7 @@ Definition map_mutations_entry (check_length : bool) (num_samples : Z) (genotype
            (ancestral : option Z) : res Z :=
   if check_length && negb (zlen genotypes =? num_samples) then Err E_VALUE else
   do m <- genotypes_scan genotypes 0 (Z.to_nat num_samples) 0;
+  if forallb (fun g => g =? -1) (firstn (Z.to_nat num_samples) genotypes) then Err E_LIBRARY (* all missing *) else
   let num_alleles := m + 1 in
   match ancestral with
   | None => Ok num_alleles
